@@ -160,7 +160,7 @@ def c17_impossible_key_params(rp):          # fixed e01fa70
         'rsa_zero', 'rsa_even_e', 'ec_point_off_curve', 'ec_empty_point', 'dss_zero')
 
 
-def c17_backslash_before_quote(rp):         # known: an odd run of backslashes of the value directly in front of a quote
+def c17_backslash_before_quote(rp):         # fixed fd4aee3: an odd run of backslashes of the value directly in front of a quote
     import re
     o = (rp.get('line') or {}).get('options', '')
     # in the OpenSSH-quoted text such a value shows as an even, non-zero run of backslashes in front of a quote
@@ -186,3 +186,10 @@ def c13_symlink_rename(rp):
 def c13_dir_rename_moves_symlink(rp):
     # only the specific history "violation observed right after renaming a directory (not a link)"
     return rp.get('kind') == 'e2e_symlink' and rp.get('after_dir_rename') is True
+
+
+# ---- C11 (replay objects written by harness/props/c11.py) ------------------------------------------------
+
+def c11_clock_race(rp):                     # fixed 97cb05d
+    # class 'clock_race' is only attributed when the offending send_packet call saw two differing clock readings
+    return rp.get('kind') == 'trace' and rp.get('class') == 'clock_race'
